@@ -482,11 +482,42 @@ fn caller_body(spec: HistSpec, pl: Arc<Plan>, dir: String, acks: Arc<AckLog>, ou
                                 .filter_map(|o| if let SOp::W(w) = o { Some(w.clone()) } else { None })
                                 .collect();
                             let f3 = crate::seqx::reappended_below_highwater(&hist_ops);
+                            // F3 only if the boundary in force is the one the protocol
+                            // prescribes for the worker's progress (replayed from its hook
+                            // events) and it covers the entry the read failed at
+                            let actual = rl.verif_cache_resident().1;
+                            let b_values: Vec<Option<LogId>> = pl
+                                .heads
+                                .iter()
+                                .map(|h| if let MRec::State(st) = &h.1 { st.last } else { None })
+                                .collect();
+                            let expected = sched::with_inner(|inner| {
+                                let mut known = 1usize;
+                                let mut exp: Option<LogId> = None;
+                                for e in &inner.trace {
+                                    if let Event::Hook { point, a, .. } = e {
+                                        if *point == "worker.nonflush" && *a == raft_log::verif_hooks::REQ_APPEND_FILE {
+                                            known += 1;
+                                        } else if *point == "worker.evictable" {
+                                            exp = b_values.get(known - 1).copied().flatten();
+                                        }
+                                    }
+                                }
+                                exp
+                            })
+                            .flatten();
                             let key = match at {
-                                Some(id) if f3.contains(&id) => "F3:read-error-on-entry-reappended-below-truncated-id",
+                                Some(id) if f3.contains(&id) && actual == expected && Some(id) <= actual => {
+                                    "F3:read-error-on-entry-reappended-below-truncated-id"
+                                }
                                 _ => "read-fails-or-differs",
                             };
-                            sched::push_violation(svio(&spec, key, format!("op {}: {}", i, b), json!({"op_index": i, "failed_at": format!("{:?}", at)})));
+                            sched::push_violation(svio(
+                                &spec,
+                                key,
+                                format!("op {}: {} (boundary in force {:?}, protocol boundary {:?})", i, b, actual, expected),
+                                json!({"op_index": i, "failed_at": format!("{:?}", at)}),
+                            ));
                         }
                         (false, b)
                     }
